@@ -348,6 +348,26 @@ def applicable_ops(h):
     return ops
 
 
+def same_plain_value(old, new):
+    """Another object that is the same value: identical AST children (nodes are never 'equal enough':
+    they may carry other metadata), tuples of such, plain scalars of exactly the same type that
+    compare and print equal."""
+    if old is new:
+        return True
+    if is_ast(old) or is_ast(new):
+        return False
+    if isinstance(old, tuple) and isinstance(new, tuple):
+        return type(old) is type(new) and len(old) == len(new) and all(same_plain_value(a, b) for a, b in zip(old, new))
+    if type(old) is not type(new):
+        return False
+    if isinstance(old, (str, int, float, bool, bytes, enum.Enum)) or old is None:
+        try:
+            return old == new and repr(old) == repr(new)
+        except Exception:
+            return False
+    return False
+
+
 def child_field_names(obj):
     """Fields of obj that hold AST children (directly or in a tuple)."""
     out = []
@@ -829,6 +849,12 @@ def execute(sc, stats=None, upto=None, trace=None):
                 if getattr(recv, fname) is val:
                     if result is not recv:
                         return _viol('but-identity', 'but(%s=<same object>) returned a different object' % fname, op_desc, sc, step)
+                elif same_plain_value(getattr(recv, fname), val) and result is recv:
+                    # another object, the same value (a tuple rebuilt around the very same children, an
+                    # equal string / number of the same type): "unchanged values" by any reading that
+                    # looks at values, a change by one that looks at identity. Both answers are
+                    # admissible; the receiver needs no further check, a copy is checked below.
+                    count('but_same_value_other_object_returned_receiver')
                 else:
                     if result is recv:
                         return _viol('but-copy', 'but(%s=<other value>) returned the receiver itself' % fname, op_desc, sc, step)
